@@ -480,6 +480,13 @@ func (b *battery) run() {
 				})
 				b.judge("dao.seek", t, q, dep, 0, true, false, got, false)
 			}
+			if top || q.Start == "" {
+				b.daoSeekReading(t, q, user, "get-other")
+				b.daoSeekReading(t, q, user, "get-same")
+			}
+			if top && q.Start == "" {
+				b.daoSeekReading(t, q, user, "async,get-other")
+			}
 			if q.Start == "" {
 				b.cur = func() (string, int, string, string) { return "dao.seekasync", t, q.String(), flagsOf(q, 0, t, 0, true) }
 				ctx, cancel := context.WithCancel(context.Background())
@@ -494,6 +501,178 @@ func (b *battery) run() {
 		}
 		if top {
 			b.find(t)
+			b.daoSeekWriting(t)
+		}
+	}
+}
+
+// ---- dao.Simple.Seek with callbacks that use the same DAO ("f() can use dao too") ----
+
+var otherKeys = []string{"a", "b", "c", "zz"}
+
+// daoSeekReading: the callback reads, through the same DAO, an item of another
+// contract (beh "get-other") or another item of the scanned contract
+// ("get-same"), the way native contracts do from their Seek handlers. The
+// delivered sequence must be the reference one and every nested read must
+// return the current value. "async,get-other": the same reads between two
+// receives from dao.SeekAsync's channel.
+func (b *battery) daoSeekReading(t int, q rangeQ, user, beh string) {
+	sc := b.sc
+	d := b.s.daos[t-1]
+	api := "dao.seek[" + beh + "]"
+	if strings.HasPrefix(beh, "async") {
+		api = "dao.seekasync[get-other]"
+	}
+	b.cur = func() (string, int, string, string) { return api, t, q.String(), flagsOf(q, 0, t, 0, true) }
+	sv, _ := b.sortedView(t, 0)
+	lookup := func(full string) (string, bool) {
+		i := sort.Search(len(sv), func(i int) bool { return sv[i].K >= full })
+		if i < len(sv) && sv[i].K == full {
+			return sv[i].V, true
+		}
+		return "", false
+	}
+	badRead := ""
+	var got []kv
+	nested := func() {
+		i := len(got) - 1
+		var full string
+		var r []byte
+		if beh == "get-same" {
+			sfx := sc.Suffixes[i%len(sc.Suffixes)]
+			full = sc.Base + sfx
+			r = d.GetStorageItem(daoID, []byte(sfx))
+		} else {
+			ok := otherKeys[i%len(otherKeys)]
+			full = baseS2 + ok
+			r = d.GetStorageItem(otherID, []byte(ok))
+		}
+		w, found := lookup(full)
+		if badRead == "" && ((found && w != "" && (r == nil || string(r) != w)) || (found && w == "" && len(r) != 0) || (!found && r != nil)) {
+			want := "absent"
+			if found {
+				want = valName([]byte(w))
+			}
+			have := "absent"
+			if r != nil {
+				have = valName(r)
+			}
+			badRead = fmt.Sprintf("GetStorageItem(%q) inside the callback #%d: want %s, got %s", full, i, want, have)
+		}
+	}
+	rng := storage.SeekRange{Prefix: []byte(user), Backwards: q.Bwd}
+	if q.Start != "" {
+		rng.Start = []byte(q.Start)
+	}
+	if strings.HasPrefix(beh, "async") {
+		ctx, cancel := context.WithCancel(context.Background())
+		for e := range d.SeekAsync(ctx, daoID, rng) {
+			got = append(got, kv{string(e.Key), string(e.Value)})
+			nested()
+		}
+		cancel()
+	} else {
+		d.Seek(daoID, rng, func(k, v []byte) bool {
+			got = append(got, kv{string(k), string(v)})
+			nested()
+			return true
+		})
+	}
+	b.judge(api, t, q, 0, 0, true, false, got, false)
+	if badRead != "" {
+		b.fail("mismatch", api+":nested-read", t, flagsOf(q, 0, t, 0, true), q.String(), "current value", badRead, "")
+	}
+}
+
+// daoSeekWriting: callbacks that write through the same DAO while the scan is
+// running. Writes to another contract or to keys of the scanned contract outside
+// the range: the delivered sequence must be exactly the reference computed from
+// the content at Seek start. Writes inside the scanned range: only the keys
+// that were not touched are judged (each exactly once, in order, right value);
+// nothing may be delivered twice. The writes are real: the model's top layer
+// follows them, which is why this runs last.
+func (b *battery) daoSeekWriting(t int) {
+	sc, m := b.sc, b.m
+	d := b.s.daos[t-1]
+	users := sc.UserPfx
+	if len(users) > 2 {
+		users = users[:2]
+	}
+	for _, user := range users {
+		var outside, inside []string
+		for _, s := range append(append([]string{}, sc.Suffixes...), "\x01", "\x01x", user+"\x7fnew") {
+			if strings.HasPrefix(s, user) {
+				inside = append(inside, s)
+			} else {
+				outside = append(outside, s)
+			}
+		}
+		for _, bw := range []bool{false, true} {
+			for _, beh := range []string{"put-other", "delete-other", "put-outside-range", "delete-outside-range", "put-inside-range", "delete-inside-range"} {
+				pool := otherKeys
+				base, id := baseS2, int32(otherID)
+				switch beh {
+				case "put-outside-range", "delete-outside-range":
+					pool, base, id = outside, sc.Base, daoID
+				case "put-inside-range", "delete-inside-range":
+					pool, base, id = inside, sc.Base, daoID
+				}
+				if len(pool) == 0 {
+					continue
+				}
+				q := rangeQ{sc.Base + user, "", bw}
+				api := "dao.seek[" + beh + "]"
+				flags := flagsOf(q, 0, t, 0, true)
+				b.cur = func() (string, int, string, string) { return api, t, q.String(), flags }
+				b.views = nil
+				sv, _ := b.sortedView(t, 0)
+				full := append([]kv{}, expectSorted(sv, q, nil)...)
+				var got []kv
+				touched := map[string]bool{}
+				var wrote []string
+				d.Seek(daoID, storage.SeekRange{Prefix: []byte(user), Backwards: bw}, func(k, v []byte) bool {
+					got = append(got, kv{sc.Base + user + string(k), string(v)})
+					i := len(got) - 1
+					key := pool[i%len(pool)]
+					touched[base+key] = true
+					if strings.HasPrefix(beh, "put") {
+						val := vals[i%2]
+						d.PutStorageItem(id, []byte(key), val)
+						m.ly[t-1][base+key] = val
+						wrote = append(wrote, fmt.Sprintf("#%d Put(%d,%q,%s)", i, id, key, valNames[i%2]))
+					} else {
+						d.DeleteStorageItem(id, []byte(key))
+						m.ly[t-1][base+key] = nil
+						wrote = append(wrote, fmt.Sprintf("#%d Delete(%d,%q)", i, id, key))
+					}
+					return true
+				})
+				b.views = nil
+				b.nq++
+				b.count(api, len(got))
+				want, have := full, got
+				if strings.HasSuffix(beh, "inside-range") {
+					want, have = nil, nil
+					for _, e := range full {
+						if !touched[e.K] {
+							want = append(want, e)
+						}
+					}
+					seen := map[string]bool{}
+					for _, e := range got {
+						if seen[e.K] {
+							b.fail("duplicate", api, t, flags, q.String()+" callback writes: "+strings.Join(wrote, " "), "every key at most once", kvsStr(got), "")
+						}
+						seen[e.K] = true
+						if !touched[e.K] {
+							have = append(have, e)
+						}
+					}
+				}
+				if !matches(have, want, 0, 0, false) {
+					b.fail("mismatch", api, t, flags, q.String()+" callback writes: "+strings.Join(wrote, " "), kvsStr(want), kvsStr(have), "")
+				}
+			}
 		}
 	}
 }
